@@ -218,9 +218,10 @@ class PaxosNode(Entity):
                 else None,
                 "accepted_value": self._accepted_value,
             }
-            # Add to our own phase1 responses
-            if ballot.number in self._phase1_responses:
-                self._phase1_responses[ballot.number].append(response)
+            # Add to our own phase1 responses (once: start_phase1 may be re-run for a ballot)
+            responses = self._phase1_responses.get(ballot.number)
+            if responses is not None and all(r["from"] != self.name for r in responses):
+                responses.append(response)
                 self._promises_received += 1
 
     def _handle_prepare(self, event: Event) -> list[Event]:
@@ -287,6 +288,9 @@ class PaxosNode(Entity):
             "accepted_ballot": accepted_ballot,
             "accepted_value": metadata.get("accepted_value"),
         }
+
+        if any(r["from"] == response["from"] for r in self._phase1_responses[ballot_number]):
+            return []  # a quorum needs distinct acceptors: count each promiser once
 
         self._phase1_responses[ballot_number].append(response)
         self._promises_received += 1
